@@ -187,7 +187,9 @@ func (c *Cookie) SetValueBytes(value []byte) {
 // AppendBytes appends cookie representation to dst and returns
 // the extended dst.
 func (c *Cookie) AppendBytes(dst []byte) []byte {
-	if len(c.key) > 0 {
+	// a nameless cookie whose value contains '=' keeps its separator: without it the
+	// first '=' of the value would be read as the end of a name
+	if len(c.key) > 0 || bytes.IndexByte(c.value, '=') >= 0 {
 		dst = append(dst, c.key...)
 		dst = append(dst, '=')
 	}
@@ -246,7 +248,7 @@ func appendCookiePart(dst, key, value []byte) []byte {
 func appendRequestCookieBytes(dst []byte, cookies []argsKV) []byte {
 	for i, n := 0, len(cookies); i < n; i++ {
 		kv := &cookies[i]
-		if len(kv.key) > 0 {
+		if len(kv.key) > 0 || bytes.IndexByte(kv.value, '=') >= 0 {
 			dst = append(dst, kv.key...)
 			dst = append(dst, '=')
 		}
